@@ -167,6 +167,51 @@ def two_filters_one_path(f1, f2):
     return out
 
 
+def rename_read_in_two_halves(filt):
+    """a rename inside the tree whose two native records are read by two successive reads, the emitter thread running in
+    between (real kernel, real emitters; one record per read): what the filtered watch delivers is the unfiltered watch's
+    stream restricted to the filter - in particular no deletion / creation that the unfiltered watch reports as one move"""
+    import queue as _q, shutil, tempfile, time
+    import c03_e2e
+    from watchdog.observers.inotify import InotifyEmitter
+    from watchdog.observers.api import ObservedWatch
+    base = tempfile.mkdtemp(prefix="c11r")
+    out = []
+    try:
+        open(os.path.join(base, "a"), "w").close()
+        with c03_e2e.OneRecordPerRead():
+            qs = [_q.Queue(), _q.Queue()]
+            ems = [InotifyEmitter(qs[0], ObservedWatch(base, recursive=True)), InotifyEmitter(qs[1], ObservedWatch(base, recursive=True, event_filter=filt), event_filter=filt)]
+            for em in ems:
+                em.start()
+            try:
+                time.sleep(0.2)
+                os.rename(os.path.join(base, "a"), os.path.join(base, "b"))
+                time.sleep(1.3)          # longer than the pairing delay
+                streams = []
+                for q in qs:
+                    evs = []
+                    while True:
+                        try:
+                            evs.append(q.get_nowait()[0])
+                        except _q.Empty:
+                            break
+                    streams.append(evs)
+            finally:
+                for em in ems:
+                    em.stop()
+                for em in ems:
+                    em.join(3)
+        want = [e for e in streams[0] if any(isinstance(e, c) for c in filt)]
+        if streams[1] != want:
+            out.append(f"rename a -> b read in two halves, filter {[c.__name__ for c in filt]}: the filtered watch delivered {streams[1]}, the unfiltered stream restricted to the filter is {want} (unfiltered: {streams[0]})")
+    except Exception as e:  # noqa: BLE001
+        out.append(f"rename read in two halves, filter {[c.__name__ for c in filt]}: {type(e).__name__}: {e}")
+    finally:
+        shutil.rmtree(base, ignore_errors=True)
+    return out
+
+
 def symlinked_root():
     """the watched root is a symbolic link to a directory (follow_symlink left at its default): a filtered watch must not
     deliver what the unfiltered watch on the same root does not"""
@@ -206,6 +251,9 @@ def main():
         if c.get("kind") == "symlinked-root":
             pr = symlinked_root()
             replay_result(bool(pr), pr[:2])
+        if c.get("kind") == "split-rename":
+            pr = rename_read_in_two_halves([getattr(E, n) for n in c["filter"]])
+            replay_result(bool(pr), pr[:2])
         if c.get("kind") == "two-filters":
             g = lambda ns: None if ns is None else [getattr(E, n) for n in ns]
             pr = two_filters_one_path(g(c["f1"]), g(c["f2"]))
@@ -228,6 +276,11 @@ def main():
     pr = symlinked_root()
     if pr:
         bat.fail("C11.symlinked-root", pr[0], {"kind": "symlinked-root"}, "Inotify.__init__")
+    for filt in ([E.FileDeletedEvent], [E.FileCreatedEvent], [E.FileMovedEvent], [E.FileDeletedEvent, E.FileCreatedEvent], [E.FileSystemEvent]):
+        bat.case(("split-rename", tuple(c.__name__ for c in filt)))
+        pr = rename_read_in_two_halves(filt)
+        if pr:
+            bat.fail("C11.rename-read-in-two-halves", pr[0], {"kind": "split-rename", "filter": [c.__name__ for c in filt]}, "InotifyBuffer.run")
     singles = [None] + [[c] for c in LATTICE]
     for f1, f2 in itertools.permutations(singles, 2):
         nm = lambda f: None if f is None else [c.__name__ for c in f]
